@@ -11,6 +11,7 @@ import (
 	"os"
 	"path/filepath"
 	"sort"
+	"strconv"
 	"strings"
 	"sync"
 )
@@ -22,19 +23,20 @@ type Failer interface {
 }
 
 type Recorder struct {
-	mu       sync.Mutex
-	Property string
-	Check    string
-	Rule     string
-	evals    int64
-	nt       map[uint64]struct{}
-	classes  map[string]int64
-	excluded map[string]int64
-	samples  []any
-	ntSeen   int64
-	extra    map[string]any
-	inconcl  int64
-	viol     int
+	mu         sync.Mutex
+	Property   string
+	Check      string
+	Rule       string
+	evals      int64
+	nt         map[uint64]struct{}
+	classes    map[string]int64
+	excluded   map[string]int64
+	samples    []any
+	ntSeen     int64
+	extra      map[string]any
+	inconcl    int64
+	viol       int
+	enumerated int64
 }
 
 var (
@@ -198,6 +200,7 @@ type dump struct {
 	Samples      []any            `json:"samples"`
 	Extra        map[string]any   `json:"extra"`
 	Inconclusive int64            `json:"inconclusive"`
+	Enumerated   int64            `json:"enumerated"`
 }
 
 // FlushAll writes every recorder to $VERIF_OUT. Call from TestMain after m.Run().
@@ -219,7 +222,7 @@ func FlushAll() {
 		hp := filepath.Join(outDir(), base+".hashes")
 		_ = os.WriteFile(hp, buf, 0o644)
 		d := dump{Property: r.Property, Check: r.Check, Rule: r.Rule, Evaluations: r.evals, Hashes: hp,
-			Classes: r.classes, Excluded: r.excluded, Samples: r.samples, Extra: r.extra, Inconclusive: r.inconcl}
+			Classes: r.classes, Excluded: r.excluded, Samples: r.samples, Extra: r.extra, Inconclusive: r.inconcl, Enumerated: r.enumerated}
 		b, _ := json.Marshal(d)
 		_ = os.WriteFile(filepath.Join(outDir(), base+".json"), b, 0o644)
 		r.mu.Unlock()
@@ -330,4 +333,43 @@ func RunReplays() []ReplayResult {
 	b, _ := json.MarshalIndent(res, "", " ")
 	_ = os.WriteFile(filepath.Join(outDir(), "replay-results.json"), b, 0o644)
 	return res
+}
+
+// QStr is a string that survives JSON byte-for-byte (invalid UTF-8, controls): it is stored as a
+// Go-quoted ASCII literal.
+type QStr string
+
+func (q QStr) MarshalJSON() ([]byte, error) {
+	return json.Marshal(strconv.QuoteToASCII(string(q)))
+}
+
+func (q *QStr) UnmarshalJSON(b []byte) error {
+	var s string
+	if err := json.Unmarshal(b, &s); err != nil {
+		return err
+	}
+	u, err := strconv.Unquote(s)
+	if err != nil {
+		return err
+	}
+	*q = QStr(u)
+	return nil
+}
+
+// Shard returns this process's shard index and the shard count.
+func Shard() (int, int) {
+	i, _ := strconv.Atoi(os.Getenv("VERIF_SHARD"))
+	n, _ := strconv.Atoi(os.Getenv("VERIF_SHARDS"))
+	if n <= 0 {
+		return 0, 1
+	}
+	return i, n
+}
+
+// Enumerated adds n cases that are non-trivial and distinct by construction (an enumeration that
+// never repeats a case and is partitioned across shards), without storing a hash per case.
+func (r *Recorder) Enumerated(n int64) {
+	r.mu.Lock()
+	r.enumerated += n
+	r.mu.Unlock()
 }
